@@ -1,6 +1,8 @@
 package zz_verifsim
 
 import (
+	bls12 "github.com/kilic/bls12-381"
+	"math/big"
 	"crypto/sha256"
 	"crypto/ecdsa"
 	"crypto/ed25519"
@@ -35,6 +37,31 @@ type keyring struct {
 	scheme string
 	priv   map[hotstuff.ID]hotstuff.PrivateKey
 	pub    map[hotstuff.ID]hotstuff.PublicKey
+	// rogue-key configuration (BLS, C02): replica rogue registered the public key g1^x - pk(victim), which it has
+	// no private key for, and publishes the victim's proof of possession as its own
+	rogue, victim hotstuff.ID
+	rogueX        *big.Int
+}
+
+const blsPopKey = "bls12-pop-bin" // the connection metadata entry that carries a replica's proof of possession
+
+// makeRogue replaces r's registered public key by g1^x - pk(v).
+func (k *keyring) makeRogue(r, v hotstuff.ID, x *big.Int) {
+	g1 := bls12.NewG1()
+	pv, err := g1.FromCompressed(k.pub[v].(*crypto.BLS12PublicKey).ToBytes())
+	if err != nil {
+		panic("harness: rogue key: " + err.Error())
+	}
+	gx := g1.New()
+	g1.MulScalarBig(gx, g1.One(), x)
+	res := g1.New()
+	g1.Sub(res, gx, pv)
+	pub := &crypto.BLS12PublicKey{}
+	if err := pub.FromBytes(g1.ToCompressed(res)); err != nil {
+		panic("harness: rogue key: " + err.Error())
+	}
+	k.pub[r] = pub
+	k.rogue, k.victim, k.rogueX = r, v, x
 }
 
 func keyBytes(inner uint64, id int, n int) []byte {
@@ -141,6 +168,27 @@ func (nd *Node) String() string {
 func (w *World) buildNodes() error {
 	p := w.plan
 	w.keys = newKeyring(p.Crypto, p.Inner, p.N)
+	if p.knob("roguekey", 0) == 1 && p.Crypto == crypto.NameBLS12 {
+		var r, v hotstuff.ID
+		for _, b := range p.Byz {
+			if b.Kind == "script" && has(b.Acts, "roguekey") {
+				r = hotstuff.ID(b.ID)
+			}
+		}
+		for id := 1; id <= p.N && v == 0; id++ {
+			byz := false
+			for _, b := range p.Byz {
+				byz = byz || b.ID == id
+			}
+			if !byz {
+				v = hotstuff.ID(id)
+			}
+		}
+		if r != 0 && v != 0 {
+			x := new(big.Int).SetBytes(keyBytes(p.Inner, 4242, 31))
+			w.keys.makeRogue(r, v, x)
+		}
+	}
 	w.byID = map[hotstuff.ID][]*Node{}
 	byz := map[int]*ByzNd{}
 	for i := range p.Byz {
@@ -201,6 +249,7 @@ func (w *World) buildNodes() error {
 			return err
 		}
 	}
+	w.popMD = map[hotstuff.ID]string{}
 	for _, nd := range w.nodes {
 		for id := 1; id <= p.N; id++ {
 			src := w.nodes[id-1]
@@ -208,6 +257,10 @@ func (w *World) buildNodes() error {
 			for k, v := range src.cfg.ConnectionMetadata() {
 				md[k] = v
 			}
+			if w.keys.rogue != 0 && hotstuff.ID(id) == w.keys.rogue {
+				md[blsPopKey] = w.nodes[w.keys.victim-1].cfg.ConnectionMetadata()[blsPopKey]
+			}
+			w.popMD[hotstuff.ID(id)] = md[blsPopKey]
 			nd.cfg.AddReplica(&hotstuff.ReplicaInfo{ID: hotstuff.ID(id), PubKey: w.keys.pub[hotstuff.ID(id)], Metadata: md})
 		}
 	}
